@@ -1651,3 +1651,101 @@ Proof.
   rewrite (too_far_sq_correct_lemma (to_ubox Qops l) (to_ubox Qops r) rl rr Hl Hr El Er).
   apply QExtra.bool_eq_iff. rewrite ubox_too_far_sq_iff, too_far_iff. reflexivity.
 Qed.
+
+(* ------------------------------------------------------------------------------------------ *)
+(* Boxes with the SAME orientation: turning both back by the common angle makes them unrotated, so the clipped area
+   is the closed form of the turned-back boxes (the overlap of the projections on the common axes) and the IoU is
+   exact, symmetric and in (0,1]. *)
+
+(* the box x turned by the inverse of the rotation (c, s): centre rotated by (c, -s), direction (1, 0), same size *)
+Definition unrot (c s : Q) (x : qbox) : qbox :=
+  mkbox (num:=Qops) (c * bxc x + s * byc x) (- s * bxc x + c * byc x) 1 0 (basp x) (bh x).
+
+Definition same_dir (l r : qbox) : Prop := bc r == bc l /\ bs r == bs l.
+
+Lemma unrot_moved c s (x : qbox) : c * c + s * s == 1 -> bc x == c -> bs x == s -> moved c (- s) 0 0 x (unrot c s x).
+Proof.
+  intros U C S. unfold moved, unrot. cbn [bxc byc bc bs basp bh]. rewrite C, S.
+  repeat split; try reflexivity; try ring.
+  - rewrite <- U. ring.
+Qed.
+
+Lemma unrot_unrotated c s (x : qbox) : unrotated (unrot c s x).
+Proof. split; reflexivity. Qed.
+
+Lemma unrot_valid c s (x : qbox) : valid_box x -> valid_box (unrot c s x).
+Proof. intros V. exact V. Qed.
+
+Lemma clip_area_moved a b dx dy l l' r r' : a * a + b * b == 1 ->
+  moved a b dx dy l l' -> moved a b dx dy r r' ->
+  clip_area Qops (rect_vertices Qops l') (rect_vertices Qops r') == clip_area Qops (rect_vertices Qops l) (rect_vertices Qops r).
+Proof.
+  intros U Ml Mr. unfold clip_area.
+  assert (K : 0 < a * a + b * b) by (rewrite U; reflexivity).
+  rewrite (shoelace_sim a b dx dy K _ _
+             (sh_clip_sim a b dx dy K _ _ _ _ (rect_vertices_moved _ _ _ _ _ _ Ml) (rect_vertices_moved _ _ _ _ _ _ Mr))).
+  rewrite U. apply Qmult_1_l.
+Qed.
+
+Lemma inv_rot_unit c s : c * c + s * s == 1 -> c * c + - s * - s == 1.
+Proof. intros U. rewrite <- U. ring. Qed.
+
+Lemma clip_area_same_orientation_lemma (l r : qbox) :
+  valid_box l -> valid_box r -> unit_dir l -> same_dir l r ->
+  clip_area Qops (rect_vertices Qops l) (rect_vertices Qops r) ==
+  aa_inter Qops (to_ltwh Qops (unrot (bc l) (bs l) l)) (to_ltwh Qops (unrot (bc l) (bs l) r)).
+Proof.
+  intros Vl Vr U [Sc Ss]. unfold unit_dir in U.
+  pose proof (unrot_moved (bc l) (bs l) l U (Qeq_refl _) (Qeq_refl _)) as Ml.
+  pose proof (unrot_moved (bc l) (bs l) r U Sc Ss) as Mr.
+  rewrite <- (clip_area_moved _ _ _ _ _ _ _ _ (inv_rot_unit _ _ U) Ml Mr).
+  apply clip_axis_aligned_lemma; auto using unrot_unrotated.
+Qed.
+
+Lemma box_area_unrot c s (x : qbox) : box_area Qops (unrot c s x) = box_area Qops x.
+Proof. reflexivity. Qed.
+
+Lemma iou_same_orientation_lemma (l r : qbox) :
+  valid_box l -> valid_box r -> unit_dir l -> same_dir l r ->
+  oeq (iou Qops l r)
+      (iou_of Qops (aa_inter Qops (to_ltwh Qops (unrot (bc l) (bs l) l)) (to_ltwh Qops (unrot (bc l) (bs l) r)))
+              (box_area Qops l) (box_area Qops r)).
+Proof.
+  intros Vl Vr U [Sc Ss]. unfold unit_dir in U.
+  pose proof (unrot_moved (bc l) (bs l) l U (Qeq_refl _) (Qeq_refl _)) as Ml.
+  pose proof (unrot_moved (bc l) (bs l) r U Sc Ss) as Mr.
+  eapply oeq_trans; [apply oeq_sym, (iou_rigid_motion_lemma _ _ _ _ _ _ _ _ (inv_rot_unit _ _ U) Ml Mr)|].
+  apply (iou_unrotated_lemma (unrot (bc l) (bs l) l) (unrot (bc l) (bs l) r)); auto using unrot_unrotated.
+Qed.
+
+Lemma same_dir_sym (l r : qbox) : same_dir l r -> same_dir r l.
+Proof. intros [A B]. split; symmetry; assumption. Qed.
+
+Lemma same_dir_unit (l r : qbox) : unit_dir l -> same_dir l r -> unit_dir r.
+Proof. intros U [A B]. unfold unit_dir in *. rewrite A, B. exact U. Qed.
+
+Lemma iou_same_orientation_sym_lemma (l r : qbox) :
+  valid_box l -> valid_box r -> unit_dir l -> same_dir l r -> oeq (iou Qops l r) (iou Qops r l).
+Proof.
+  intros Vl Vr U [Sc Ss]. unfold unit_dir in U.
+  pose proof (unrot_moved (bc l) (bs l) l U (Qeq_refl _) (Qeq_refl _)) as Ml.
+  pose proof (unrot_moved (bc l) (bs l) r U Sc Ss) as Mr.
+  pose proof (inv_rot_unit _ _ U) as U'.
+  eapply oeq_trans; [apply oeq_sym, (iou_rigid_motion_lemma _ _ _ _ _ _ _ _ U' Ml Mr)|].
+  eapply oeq_trans; [|apply (iou_rigid_motion_lemma _ _ _ _ _ _ _ _ U' Mr Ml)].
+  apply iou_unrotated_sym_lemma; auto using unrot_unrotated.
+Qed.
+
+Lemma iou_same_orientation_range_lemma (l r : qbox) v :
+  valid_box l -> valid_box r -> unit_dir l -> same_dir l r -> iou Qops l r = Some v -> 0 < v <= 1.
+Proof.
+  intros Vl Vr U [Sc Ss] E. unfold unit_dir in U.
+  pose proof (unrot_moved (bc l) (bs l) l U (Qeq_refl _) (Qeq_refl _)) as Ml.
+  pose proof (unrot_moved (bc l) (bs l) r U Sc Ss) as Mr.
+  pose proof (iou_rigid_motion_lemma _ _ _ _ _ _ _ _ (inv_rot_unit _ _ U) Ml Mr) as O.
+  pose proof (fun w => iou_unrotated_range_lemma (unrot (bc l) (bs l) l) (unrot (bc l) (bs l) r) w
+                         Vl Vr (unrot_unrotated _ _ _) (unrot_unrotated _ _ _)) as RG.
+  revert O RG. generalize (iou Qops (unrot (bc l) (bs l) l) (unrot (bc l) (bs l) r)). intros o2.
+  revert E. generalize (iou Qops l r). intros o1 E O RG. subst o1.
+  destruct o2 as [w|]; cbn [oeq] in O; [|contradiction]. rewrite <- O. apply RG. reflexivity.
+Qed.
